@@ -75,6 +75,43 @@ class Lockset:
         self.visited[role] = {fid for fid, _ in seen}
 
 
+def k5_delivery(ctx):
+    """every send with interrupts enabled is followed by an interrupt delivery: in the two send operations the handler
+    invocation may depend on nothing but the interrupt-enable condition of *this* send and the slot being bound"""
+    from .. import boolform
+    from ..astq import field_path
+    K5 = 'C19.K5'
+    ctx.rule(K5, 'delivery on every enabled send: DataChannel::Send invokes the handler exactly when !disable_interrupt (and a '
+                 'handler is installed); Apbp::SetSemaphore invokes it exactly when the freshly computed (semaphore & '
+                 '~semaphore_mask) is non-zero - no stored state (an earlier signal, the ready flag) may swallow the interrupt', floor=2)
+    DC, IMPL = 'Teakra::DataChannel', 'Teakra::Apbp::Impl'
+    S = '(. (-> f:Teakra::Apbp::impl) %s::semaphore)' % IMPL
+    Mk = '(. (-> f:Teakra::Apbp::impl) %s::semaphore_mask)' % IMPL
+    H = '(. (-> f:Teakra::Apbp::impl) %s::semaphore_handler)' % IMPL
+    SIG = boolform.A('(& %s %s)' % tuple(sorted([S, '(~ %s)' % Mk])))
+    for fid, slot, want, what in (
+            (DC + '::Send(unsigned short)', (DC, 'handler', None),
+             [boolform.all_of(boolform.neg(boolform.A('f:%s::disable_interrupt' % DC)), boolform.A('f:%s::handler' % DC)),
+              boolform.neg(boolform.A('f:%s::disable_interrupt' % DC))], '!disable_interrupt'),
+            ('Teakra::Apbp::SetSemaphore(unsigned short)', (IMPL, 'semaphore_handler', None),
+             [boolform.all_of(SIG, boolform.A(H)), SIG], '(semaphore & ~semaphore_mask) != 0')):
+        f = ctx.fn(fid)
+        ctx.inst(K5)
+        FM = boolform.Former(f)
+        inv = [n for n in walk(f['body']) if n.get('k') == 'opcall' and n.get('op') == '()' and n.get('args')
+               and field_path(n['args'][0]) == slot]
+        if not inv:
+            ctx.report(K5, f, f['body'], short_fn(fid) + ' delivery', 'the send never invokes the interrupt handler')
+            continue
+        total = boolform.F_
+        for n in inv:
+            total = boolform.any_of(total, boolform.path_condition(f['body'], n, FM))
+        if not any(boolform.equivalent(total, w) is True for w in want):
+            ctx.report(K5, f, inv[0], short_fn(fid) + ' delivery',
+                       'the handler is invoked under %s; a send must interrupt the peer exactly when %s'
+                       % (boolform.show(total)[:260], what))
+
+
 def run(ctx):
     CG = callgraph.CallGraph(ctx.F, is_library)
     F = ctx.F['functions']
@@ -228,6 +265,7 @@ def run(ctx):
             if not (st.get('k') == 'opcall' and st.get('op') == '=' and 'atomic' in str(st.get('cls', '')) or
                     st.get('k') == 'call' and st.get('name') == 'store'):
                 ctx.report(K4, g, st, 'Interpreter::' + nm.split('(')[0], 'signal function does something other than atomic stores')
+    k5_delivery(ctx)
     ctx.sample({'shared_field': 'Teakra::DataChannel::ready', 'locks': ['DataChannel::mutex']})
     ctx.sample({'lock_order': sorted('%s -> %s' % (a[1], b[1]) for (a, b) in L.order)})
     ctx.assumptions += ['two thread roles: host = the mailbox/semaphore API of teakra.h, dsp = Teakra::Run; other host calls are '
